@@ -15,10 +15,15 @@ CONSTANTS
   FixRevertVerify = TRUE
   FixUnderflow = TRUE
   Fine = TRUE
-  EmptyDiff = {2, 4}
+  EmptyDiff = {}
   RootCheckedOnEmptyDiff = TRUE
   VerdictPerAnswer = TRUE
+  ClassA = {2, 4}
+  ClassB = {3}
+  SierraSet = {1}
+  RememberKnown = FALSE
+  Windows = FALSE
 SPECIFICATION FairSpec
-INVARIANTS TypeOK LocalIsSourceBlocks ReorgExact StoredOnlyVerified
-PROPERTIES EventuallyConverges StoreSafe HeadMovesOnlyByStoreOrRevert RevertsJustified RevertsHaveEvidence
+INVARIANTS TypeOK LocalIsSourceBlocks ReorgExact StoredOnlyVerified ClassesExact StoredClassesComplete KnownIsCurrent
+PROPERTIES EventuallyConverges StoreSafe HeadMovesOnlyByStoreOrRevert RevertsJustified RevertsHaveEvidence NewClassesSufficient
 CHECK_DEADLOCK TRUE
